@@ -121,6 +121,8 @@ class C13Monitor:
         self.inv = collections.Counter()   # (id(event), kind, key) -> invocations
         self.keep = []
         self.cancel_calls = {}
+        self.calls_at = {}
+        self.hook_uses = {}
         self.sess_cfg = case["config"]["simulation"]["sessions"]
         self.pending_alter = {}
         self.seq_of = {}
@@ -159,6 +161,7 @@ class C13Monitor:
             # the same Cancel object may be sent again later: an occurrence is (object, market time)
             self.occ.append(("cancel_before", (id(ev["cancel"]), ev["time"]), ev["time"], ev["mkt"], None))
             self.cancel_calls[id(ev["cancel"])] = self.cancel_calls.get(id(ev["cancel"]), 0) + 1
+            self.calls_at[(id(ev["cancel"]), ev["time"])] = self.calls_at.get((id(ev["cancel"]), ev["time"]), 0) + 1
             self.keep.append(ev["cancel"])
         elif k == "cancel_ret":
             self.occ.append(("cancel_after", id(ev["log"]), ev["log"].cancel_time, ev["mkt"], None))
@@ -195,8 +198,15 @@ class C13Monitor:
                     res.violation("before", "before-order-hook-saw-an-already-accepted-order", {"order": s})
             elif what == "cancel_before":
                 key = (id(ev["cancel"]), ev["mtime"])
-                # (the market call comes after this hook: a count of 0 means the object was never applied before)
-                if ev["cancel_placed_at"] is not None and self.cancel_calls.get(id(ev["cancel"]), 0) == 0:
+                # the market call of an occurrence comes after its before-hooks: in this step the object must not
+                # have been applied more often than this event's before-hook has already seen it (an object that
+                # is sent again legitimately carries the stamp of its previous use)
+                ck = (id(ev["cancel"]), ev["mtime"])
+                hk = (id(ev["event"]), id(ev["cancel"]), ev["mtime"])
+                seen_before = self.hook_uses.get(hk, 0)
+                self.hook_uses[hk] = seen_before + 1
+                if self.calls_at.get(ck, 0) > seen_before or (
+                        ev["cancel_placed_at"] is not None and self.cancel_calls.get(id(ev["cancel"]), 0) == 0):
                     res.violation("before", "before-cancel-hook-saw-an-already-applied-cancel", {"order": ev["snap"]})
             else:
                 key = id(ev["log"])
